@@ -120,8 +120,9 @@ func ruleEmptyListElementsIgnored(c *Ctx, rule string) {
 	_, f, _ := corsFuncs(c)
 	se := &symEval{c: c}
 	emptyEl := func(e string) bool {
-		// the element, trimmed or not
-		return e == "EL" || e == "CALL:strings.TrimSpace(EL)"
+		// the element, trimmed or not: of a split list, or cut off the front of the text (strings.Cut)
+		e = strings.TrimSuffix(strings.TrimPrefix(e, "CALL:strings.TrimSpace("), ")")
+		return e == "EL" || (strings.HasPrefix(e, "CALL:strings.Cut(") && strings.HasSuffix(e, "#0"))
 	}
 	se.elem = func(slice string) string {
 		if strings.HasPrefix(slice, "CALL:strings.Split(") || strings.HasPrefix(slice, "CALL:strings.SplitSeq(") {
@@ -188,7 +189,8 @@ func ruleEmptyListElementsIgnored(c *Ctx, rule string) {
 		if os.Getenv("MUXLINT_DEBUG_R11") != "" {
 			fmt.Fprintln(os.Stderr, "R11 outcome:", o.String())
 		}
-		if o.ret != "CONST:true" {
+		// only a denial is a violation; a path the evaluator cannot follow (a hand-written scanning loop) decides nothing
+		if o.ret == "CONST:false" {
 			bad = append(bad, o.ret)
 		}
 	}
@@ -460,18 +462,32 @@ func ruleExhaustedPathPrefersTheNode(c *Ctx, rule string) {
 	a := c.A
 	n := 0
 	done := map[*ssa.Function]bool{}
-	for _, s := range attemptSites(c) {
-		f := s.f
-		if done[f] || len(f.Params) == 0 || !isPtrToNamed(f.Params[0].Type(), a.NodeT) {
+	isAttempt := map[ssa.Instruction]bool{}
+	for _, s2 := range attemptSites(c) {
+		isAttempt[s2.in] = true
+	}
+	// the functions the search recurses into (helpers that try one child on behalf of them are entered by the query)
+	isBT := map[*ssa.Function]bool{}
+	for _, f := range c.A.Backtrackers {
+		isBT[an.Origin(f)] = true
+	}
+	entered := map[*ssa.Function]bool{} // called by itself, or from a function that is not part of the search
+	for _, g := range c.libFuncs() {
+		an.AllInstrs(g, func(in ssa.Instruction) {
+			if call := an.CallOf(in); call != nil {
+				if callee := an.StaticCallee(call); callee != nil && isBT[an.Origin(callee)] {
+					if an.Origin(g) == an.Origin(callee) || !isBT[an.Origin(g)] {
+						entered[an.Origin(callee)] = true
+					}
+				}
+			}
+		})
+	}
+	for _, f := range c.A.Backtrackers {
+		if done[f] || len(f.Params) == 0 || !isPtrToNamed(f.Params[0].Type(), a.NodeT) || !entered[an.Origin(f)] {
 			continue
 		}
 		done[f] = true
-		isAttempt := map[ssa.Instruction]bool{}
-		for _, s2 := range attemptSites(c) {
-			if s2.f == f {
-				isAttempt[s2.in] = true
-			}
-		}
 		assume := func(cond ssa.Value) (bool, bool) {
 			v, neg := stripNot(cond)
 			bo, ok := v.(*ssa.BinOp)
@@ -519,6 +535,7 @@ func ruleExhaustedPathPrefersTheNode(c *Ctx, rule string) {
 		path := (&an.Query{
 			Assume: assume,
 			Facts:  true,
+			Deep:   deepDefault,
 			Target: func(t ssa.Instruction) bool { return isAttempt[t] },
 		}).Search(an.Entry(f))
 		o := c.R.Add(rule, c.fk(f), "path-used-up∧node-has-handlers/no-child-attempted", c.P.Pos(f.Pos()), path == nil, ifelse(path == nil, "with the path used up at a node with handlers the scan returns the node without trying a child", "with the request path used up at a node that has handlers, the children are still tried first: a child that accepts the empty rest (an end-point parameter) wins with an empty value, and the node's own route — the literal one, `/s/` beside `/s/{id}` — is unreachable; its methods are answered from the child"))
@@ -712,6 +729,7 @@ func ruleEntryConditionBelongsToTheGroup(c *Ctx, rule string) {
 		}
 	})
 	n := 0
+	seenStore := map[string]bool{}
 	for _, f := range c.libFuncs() {
 		if !strings.HasPrefix(an.FuncKey(f), "mux.(*Group).") {
 			continue
@@ -732,6 +750,10 @@ func ruleEntryConditionBelongsToTheGroup(c *Ctx, rule string) {
 			if _, fresh := fa.X.(*ssa.Alloc); fresh {
 				return
 			}
+			if seenStore[c.fk(f)+"/"+fld] {
+				return // one finding per function and field, however many stores
+			}
+			seenStore[c.fk(f)+"/"+fld] = true
 			n++
 			c.R.Add(rule, c.fk(f), "store:Router."+fld+"/read-by-Group.ServeHTTP", c.pos(in), false, "the group keeps what it dispatches with (Router."+fld+") inside the Router object: adding the same router to a second group (or adding it again with another matcher) rewrites the condition under which the first group enters it, although nothing was called on the first group")
 		})
